@@ -321,3 +321,57 @@ Proof.
   assert (Hlen0 : length ([] ++ text2 pairs) < max_token) by (cbn [app]; rewrite app_length in Hlen; lia).
   rewrite (read_of_segments2 preset opts [] pairs chunks0 final eq_refl Hok Hlen0 Hc0). reflexivity.
 Qed.
+
+(* ---- C08: for an accepted text in which no tag repeats, every segment is reflected in the message ---- *)
+Lemma assign_all_untouched i : forall asg tgs, ~ In i (map fst asg) -> nth i (assign_all asg tgs) None = nth i tgs None.
+Proof.
+  induction asg as [|[j w] r IH]; intros tgs Hn; [reflexivity|]. cbn [assign_all]. cbn [map fst] in Hn.
+  rewrite IH by (intros H; apply Hn; right; exact H). rewrite nth_set_tag.
+  destruct (i =? j) eqn:E; [apply Nat.eqb_eq in E; subst; exfalso; apply Hn; left; reflexivity|reflexivity].
+Qed.
+
+Lemma assign_all_length : forall asg tgs, length (assign_all asg tgs) = length tgs.
+Proof. induction asg as [|[j w] r IH]; intros tgs; [reflexivity|]. cbn [assign_all]. rewrite IH. apply set_tag_length. Qed.
+
+Lemma assign_all_get : forall asg tgs i v, NoDup (map fst asg) -> In (i, v) asg -> i < length tgs ->
+  nth i (assign_all asg tgs) None = Some v.
+Proof.
+  induction asg as [|[j w] r IH]; intros tgs i v Hnd Hin Hl; [contradiction|].
+  cbn [map fst] in Hnd. inversion Hnd as [|? ? Hni Hnd']; subst. cbn [assign_all].
+  destruct Hin as [E|Hin].
+  - injection E as -> ->. rewrite (assign_all_untouched i r _ Hni). rewrite nth_set_tag, Nat.eqb_refl.
+    apply Nat.ltb_lt in Hl. rewrite Hl. reflexivity.
+  - apply IH; [exact Hnd'|exact Hin|rewrite set_tag_length; exact Hl].
+Qed.
+
+Lemma no_errors_all_results : forall lines ln, errors_of lines ln = [] -> exists asg, results_of lines ln = Some asg.
+Proof.
+  induction lines as [|l r IH]; intros ln H; [exists []; reflexivity|].
+  cbn [errors_of] in H. apply app_eq_nil in H as [H1 H2]. cbn [results_of]. unfold line_err in H1.
+  destruct (parse_line l (S ln)) as [e|a]; [discriminate H1|].
+  destruct (IH (S ln) H2) as [rest Hr]. rewrite Hr. exists (a :: rest). reflexivity.
+Qed.
+
+Theorem accepted_text_reflects_every_segment preset opts lead pairs chunks m :
+  no_brace lead = true -> forallb pair_ok pairs = true -> length (lead ++ text2 pairs) < max_token ->
+  concat chunks = lead ++ text2 pairs ->
+  read_model preset opts chunks FEOF = ROk m ->
+  exists asg, results_of (map fst pairs) 0 = Some asg /\ length asg = length pairs /\
+    (NoDup (map fst asg) -> forall i v, In (i, v) asg -> i < length (m_tags m) -> nth i (m_tags m) None = Some v).
+Proof.
+  intros Hl Hok Hlen Hc Hr.
+  rewrite (read_of_segments2 preset opts lead pairs chunks FEOF Hl Hok Hlen Hc) in Hr. unfold read_segments in Hr.
+  pose proof (read_lines_errors (map fst pairs) 0 empty_tags []) as He.
+  destruct (read_lines (map fst pairs) 0 empty_tags []) as [tgs errs] eqn:Erl. cbn [snd rev app] in He. subst errs.
+  cbn [final_err] in Hr.
+  destruct (errors_of (map fst pairs) 0) as [|e r] eqn:Ee; [|discriminate Hr].
+  destruct (no_errors_all_results _ _ Ee) as [asg Hres]. exists asg. split; [exact Hres|].
+  assert (Hlen_asg : forall lines ln a, results_of lines ln = Some a -> length a = length lines).
+  { induction lines as [|l0 r0 IH0]; intros ln a H; cbn [results_of] in H; [injection H as <-; reflexivity|].
+    destruct (parse_line l0 (S ln)) as [|x]; [discriminate H|]. destruct (results_of r0 (S ln)) as [rest|] eqn:Er0; [|discriminate H].
+    injection H as <-. cbn [length]. rewrite (IH0 _ _ Er0). reflexivity. }
+  split; [rewrite (Hlen_asg _ _ _ Hres); apply map_length|].
+  rewrite (read_lines_ok _ _ empty_tags asg Hres) in Erl. injection Erl as <-.
+  destruct (verify _) eqn:Ev; try discriminate Hr. injection Hr as <-. cbn [m_tags].
+  intros Hnd i v Hin Hi. rewrite assign_all_length in Hi. apply assign_all_get; assumption.
+Qed.
